@@ -27,6 +27,7 @@ import (
 	"github.com/ava-labs/avalanchego/utils/logging"
 	"github.com/ava-labs/avalanchego/x/merkledb"
 
+	"github.com/ava-labs/hypersdk/api"
 	"github.com/ava-labs/hypersdk/auth"
 	"github.com/ava-labs/hypersdk/chain"
 	"github.com/ava-labs/hypersdk/chain/chaintest"
@@ -62,7 +63,9 @@ import (
 //      write and before the state commit, 4 = after the state commit and before the first
 //      accepted-subscriber (A) is notified, 5 = after A and before the second subscriber (B),
 //      6 = after both notifications (before block k+1 is touched). pre/re are A's logs,
-//      preB/reB are B's.
+//      preB/reB are B's. A is attached directly to the snow VM before Initialize; B is a block
+//      subscription passed through the VM's options (like the indexer), so it sits behind the
+//      VM's own mempool subscriber in the notification order.
 //      (Point 1, after the index update and before the enqueue of block a, has the same
 //      persistent state as `crash a 2 k`: the queue is volatile.)
 
@@ -119,17 +122,26 @@ func c18Start(t *testing.T, dir string, genesisBytes []byte, sub func(h uint64),
 	); err != nil {
 		return nil, err
 	}
+	// subscriber B is registered the way the indexer / websocket / external subscribers are:
+	// through the VM's own options path (vm.WithBlockSubscriptions -> applyOptions), so that the
+	// place where vm.go attaches the block subscriptions is part of what is observed.
+	subOpt := NewOption[struct{}]("verifc18", struct{}{}, func(_ api.VM, _ struct{}) (Opt, error) {
+		return WithBlockSubscriptions(event.SubscriptionFuncFactory[*chain.ExecutedBlock]{
+			NotifyF: func(_ context.Context, b *chain.ExecutedBlock) error {
+				subB(b.Block.Hght)
+				return nil
+			},
+		}), nil
+	})
 	v, err := New(genesis.DefaultGenesisFactory{}, balance.NewPrefixBalanceHandler([]byte{0}), metadata.NewDefaultManager(),
-		actionParser, authParser, outputParser, auth.DefaultEngines(), WithManual())
+		actionParser, authParser, outputParser, auth.DefaultEngines(), WithManual(), subOpt)
 	if err != nil {
 		return nil, err
 	}
 	snowVM := snow.NewVM("v0.0.1", v)
+	// subscriber A is registered directly on the snow VM before Initialize (first in the list)
 	snowVM.AddAcceptedSub(event.SubscriptionFunc[*chain.OutputBlock]{NotifyF: func(_ context.Context, b *chain.OutputBlock) error {
 		sub(b.GetHeight())
-		return nil
-	}}, event.SubscriptionFunc[*chain.OutputBlock]{NotifyF: func(_ context.Context, b *chain.OutputBlock) error {
-		subB(b.GetHeight())
 		return nil
 	}})
 	chainID := hashing.ComputeHash256Array(genesisBytes)
@@ -347,8 +359,10 @@ func TestVerifC18Child(t *testing.T) {
 		}
 		rep := c18Report{Outcome: "ok"}
 		var blocks []string
-		_, gid, _ := n.lastAccepted()
-		rep.PerH = append(rep.PerH, c18H{ID: gid, Root: n.root(), Results: "genesis"})
+		// height 0: what the never-crashed node itself reports for genesis (hash of the empty
+		// execution results), so that a restart at height 0 is compared like with like
+		_, gid, gres := n.lastAccepted()
+		rep.PerH = append(rep.PerH, c18H{ID: gid, Root: n.root(), Results: gres})
 		factory := c18AuthFactory()
 		for i := 0; i < nblocks; i++ {
 			up, err := n.vm.UnitPrices(ctx)
@@ -563,14 +577,18 @@ func c18ClassifyErr(err error) string {
 }
 
 func c18Child(t *testing.T, mode, dir, work, args string) (*c18Report, string) {
-	cmd := exec.Command(os.Args[0], "-test.run", "^TestVerifC18Child$", "-test.count=1", "-test.timeout=120s")
+	cmd := exec.Command(os.Args[0], "-test.run", "^TestVerifC18Child$", "-test.count=1", "-test.timeout=900s")
 	cmd.Env = append(os.Environ(), c18EnvMode+"="+mode, c18EnvDir+"="+dir, c18EnvWork+"="+work, c18EnvArgs+"="+args)
 	var out bytes.Buffer
 	cmd.Stdout, cmd.Stderr = &out, &out
 	err := cmd.Run()
 	data, rerr := os.ReadFile(filepath.Join(work, "report-"+mode+".json"))
 	if rerr != nil {
-		return nil, fmt.Sprintf("child %s failed: %v\n%s", mode, err, out.String())
+		o := out.String()
+		if len(o) > 3000 { // the reason (panic / fatal) is at the end
+			o = "…" + o[len(o)-3000:]
+		}
+		return nil, fmt.Sprintf("child %s failed: %v\n%s", mode, err, o)
 	}
 	var rep c18Report
 	if jerr := json.Unmarshal(data, &rep); jerr != nil {
@@ -654,9 +672,16 @@ func TestVerifC18(t *testing.T) {
 				continue
 			}
 			re, msg := c18Child(t, "restart", dir, work, "")
+			if re == nil && strings.Contains(msg, "test timed out") {
+				// the child process ran into the go test timeout (machine overload), which says
+				// nothing about the start-up: that attempt counts as one more abrupt stop
+				r.Count("restart-child-timeout-retried")
+				re, msg = c18Child(t, "restart", dir, work, "")
+			}
 			if re == nil {
 				// the restart child died without a report (e.g. a panic on another goroutine)
 				re = &c18Report{Outcome: "died", Err: msg}
+				_ = os.WriteFile(filepath.Join(r.OutDir, fmt.Sprintf("died-case%d.txt", ci)), []byte(l+"\n"+msg), 0o644)
 			}
 			la := "-"
 			agree := "-"
@@ -728,18 +753,36 @@ func TestVerifC18(t *testing.T) {
 					}
 				}
 				if len(missing) > 0 {
-					// class: was the index ahead of the state, and did the node stop between the state
-					// commit of the missing block and its delivery to this subscriber?
-					key := "accepted-block-never-notified-index-level-with-state"
+					// classes, by a predicate on the missing block:
+					//  (1) the block at the state height whose delivery to this subscriber had not
+					//      happened when the node stopped, index ahead (known finding) / level;
+					//  (2) a block strictly above the state height: it was re-processed by the start-up
+					//      (or accepted after it) and still never reached this subscriber;
+					//  (3) anything else.
+					var atState, above, other []uint64
+					inWindow := p == 4 || (p == 5 && si == 1)
+					for _, h := range missing {
+						switch {
+						case h == pre.St && h == uint64(k) && inWindow:
+							atState = append(atState, h)
+						case h > pre.St:
+							above = append(above, h)
+						default:
+							other = append(other, h)
+						}
+					}
+					report := func(key string, hs []uint64) {
+						if len(hs) > 0 {
+							r.Violation(key, "%s: subscriber %s: blocks %v were accepted but never delivered before or after the restart (index %d, state %d; pre=%v re=%v)", l, name, hs, pre.Idx, pre.St, logs[0], logs[1])
+						}
+					}
 					if ahead >= 1 {
-						key = "accepted-block-never-notified-index-ahead"
-					}
-					if len(missing) == 1 && missing[0] == uint64(k) && (p == 4 || (p == 5 && si == 1)) {
-						key += "-crash-between-commit-and-notify"
+						report("accepted-block-never-notified-index-ahead-crash-between-commit-and-notify", atState)
 					} else {
-						key += "-other"
+						report("accepted-block-never-notified-index-level-with-state-crash-between-commit-and-notify", atState)
 					}
-					r.Violation(key, "%s: subscriber %s: blocks %v were accepted but never delivered before or after the restart (pre=%v re=%v)", l, name, missing, logs[0], logs[1])
+					report("reprocessed-block-above-state-height-never-notified", above)
+					report("accepted-block-never-notified-other", other)
 				}
 				if !inOrder {
 					r.Violation("notifications-out-of-order", "%s: subscriber %s pre=%v re=%v", l, name, logs[0], logs[1])
@@ -752,9 +795,12 @@ func TestVerifC18(t *testing.T) {
 }
 
 func c18Short(s string) string {
+	if i := strings.Index(s, "panic:"); i >= 0 && len(s) > 300 { // show the reason, not the preamble
+		s = s[i:]
+	}
 	s = strings.ReplaceAll(s, "\n", " ")
-	if len(s) > 200 {
-		s = s[:200]
+	if len(s) > 300 {
+		s = s[:300]
 	}
 	return s
 }
@@ -774,6 +820,7 @@ func c18Generate(r *verifh.Run) []string {
 	add("crash 2 5 1") // the same between subscriber A and subscriber B
 	add("crash 3 3 2") // results one ahead of the state, index two ahead
 	add("crash 3 1 3") // consensus stopped inside the index write of block 3, accepter running
+	add("crash 1 1 1") // the same for the very first block: restart at genesis (height 0)
 	// completely full queue: block 1 in flight, 16 queued, the 18th Accept blocked on the send
 	// after its index write: 18 accepted blocks outstanding
 	add("crash 18 2 1")
